@@ -30,8 +30,10 @@ UNITS = [
          bound="all ASCII strings of length 2"),
     dict(unit="K03.split_ascii_len3", harness="k03_split_ascii_len3", tags=["C02"], quick=False, complete=False,
          bound="all ASCII strings of length 3"),
-    dict(unit="K03.split_nonascii_name_eq_value", harness="k03_split_nonascii_name_eq_value", tags=["C02"], quick=True, complete=False,
-         bound="`-ñ=v` and `--ñ=v`, v any single byte"),
+    dict(unit="K03.split_nonascii_short_eq_value", harness="k03_split_nonascii_short_eq_value", tags=["C02"], quick=True, complete=False,
+         bound="`-ñ=v`, v any single byte"),
+    dict(unit="K03.split_nonascii_long_eq_value", harness="k03_split_nonascii_long_eq_value", tags=["C02"], quick=True, complete=False,
+         bound="`--ñ=v`, v any single byte"),
     dict(unit="K03.split_short_attached_value_with_eq", harness="k03_split_short_attached_value_with_eq", tags=["C02"], quick=False, complete=False,
          bound="`-cw=v`, c ASCII alphanumeric, w ASCII, v any byte"),
     # K08 / K09: documentation leaves
@@ -47,91 +49,105 @@ UNITS = [
 
 
 def _limits():
-    # 24 GB address space per CBMC process
+    # address-space cap per process tree member (CBMC): 14 GB, so that 4 workers fit the machine
     try:
-        resource.setrlimit(resource.RLIMIT_AS, (24 << 30, 24 << 30))
+        resource.setrlimit(resource.RLIMIT_AS, (14 << 30, 14 << 30))
     except Exception:
         pass
+    os.setsid()
+
+
+def _run_one(repo, u, target, work, timeout_s):
+    """one `cargo kani --harness h` invocation; the whole output belongs to this harness"""
+    import signal
+    feat = u.get("features", "")
+    cmd = ["cargo", "kani", "--target-dir", target, "--output-format=terse", "--harness", u["harness"]]
+    if feat:
+        cmd += ["--features", feat]
+    env = dict(os.environ, PACAK_BPAF_VERIF_DIR=VERIF, CARGO_NET_OFFLINE="true")
+    env.pop("RUSTFLAGS", None)
+    t0 = time.time()
+    r = dict(unit=u["unit"], harness=u["harness"], bound=u["bound"], complete=u.get("complete", False), cmd=" ".join(cmd))
+    p = subprocess.Popen(cmd, cwd=repo, stdout=subprocess.PIPE, stderr=subprocess.STDOUT, text=True, env=env, preexec_fn=_limits)
+    try:
+        out, _ = p.communicate(timeout=timeout_s)
+        timed_out = False
+    except subprocess.TimeoutExpired:
+        try:
+            os.killpg(p.pid, signal.SIGKILL)
+        except Exception:
+            pass
+        out, _ = p.communicate()
+        timed_out = True
+    r["wall_s"] = round(time.time() - t0, 1)
+    with open(os.path.join(work, "kani_%s.log" % u["harness"]), "w") as f:
+        f.write(" ".join(cmd) + "\n" + out)
+    if timed_out:
+        r.update(status="undecided", why="timeout after %ds (bound too expensive for CBMC here)" % timeout_s)
+        return r
+    if "error: could not compile" in out or "Failed to execute cargo" in out:
+        r.update(status="undecided", why="the crate does not compile under cfg(kani): " + _first_error(out))
+        return r
+    m = re.search(r"Verification Time: ([0-9.]+)s", out)
+    if m:
+        r["solver_s"] = float(m.group(1))
+    m = re.search(r"\*\* (\d+) of (\d+) failed", out)
+    if m:
+        r["checks"] = int(m.group(2))
+    cov = re.search(r"\*\* (\d+) of (\d+) cover properties satisfied", out)
+    if "VERIFICATION:- SUCCESSFUL" in out:
+        if cov and int(cov.group(1)) < int(cov.group(2)):
+            r.update(status="undecided", why="vacuity: a cover! property is unsatisfiable")
+        else:
+            r.update(status="pass")
+    elif "VERIFICATION:- FAILED" in out:
+        fc = [x for x in re.findall(r"Failed Checks: (.*)", out)]
+        real = [x for x in fc if "unwinding assertion" not in x]
+        if fc and not real:
+            r.update(status="undecided", why="unwinding bound too small: " + fc[0])
+        elif re.search(r"out of memory|std::bad_alloc|Killed", out) and not real:
+            r.update(status="undecided", why="out of memory")
+        else:
+            r.update(status="fail", failed_check=_slug(real[0]) if real else "assertion", output_tail=out[-3000:])
+            # concrete playback (second pass)
+            pcmd = ["cargo", "kani", "--target-dir", target, "--output-format=terse", "-Z", "concrete-playback",
+                    "--concrete-playback=print", "--harness", u["harness"]] + (["--features", feat] if feat else [])
+            try:
+                pp = subprocess.run(pcmd, cwd=repo, capture_output=True, text=True, env=env, timeout=timeout_s)
+                mm = re.search(r"```\s*\n(.*?)```", pp.stdout, re.S)
+                if mm:
+                    r["playback"] = mm.group(1)
+                    vals = re.findall(r"//\s*(.+?)\s*\n\s*vec!\[([^\]]*)\]", mm.group(1))
+                    r["concrete_input"] = [{"value": a.strip(), "bytes": b.strip()} for a, b in vals]
+            except subprocess.TimeoutExpired:
+                pass
+    else:
+        r.update(status="undecided", why="harness did not finish (rc=%s): %s" % (p.returncode, out[-300:]))
+    return r
 
 
 def run_units(repo, units, work, tier, jobs=4, timeout_s=None):
-    """Runs the harnesses of `units` with one `cargo kani` invocation per feature set; returns one dict per unit."""
+    """Runs every harness in its own `cargo kani` process, `jobs` at a time, each worker with its own target dir."""
+    from concurrent.futures import ThreadPoolExecutor
+    import queue
     os.makedirs(work, exist_ok=True)
-    target = os.environ.get("VERIF_KANI_TARGET", os.path.join(VERIF, "out", "kani-target"))
-    timeout_s = timeout_s or (600 if tier == "quick" else 1500)
-    results = []
-    by_feat = {}
-    for u in units:
-        by_feat.setdefault(u.get("features", ""), []).append(u)
-    for feat, us in by_feat.items():
-        cmd = ["cargo", "kani", "--target-dir", target, "--output-format=terse", "-j", str(jobs),
-               "-Z", "unstable-options", "--harness-timeout", "%ds" % timeout_s]
-        if feat:
-            cmd += ["--features", feat]
-        for u in us:
-            cmd += ["--harness", u["harness"]]
-        env = dict(os.environ, PACAK_BPAF_VERIF_DIR=VERIF, CARGO_NET_OFFLINE="true")
-        env.pop("RUSTFLAGS", None)
-        t0 = time.time()
+    timeout_s = timeout_s or (600 if tier == "quick" else 1800)
+    base = os.environ.get("VERIF_KANI_TARGET", os.path.join(VERIF, "out", "kani-target"))
+    q = queue.Queue()
+    for i in range(jobs):
+        q.put(i)
+
+    def job(u):
+        i = q.get()
         try:
-            p = subprocess.run(cmd, cwd=repo, capture_output=True, text=True, env=env, preexec_fn=_limits,
-                               timeout=timeout_s * (len(us) // jobs + 2) + 300)
-            out = p.stdout + "\n" + p.stderr
-            rc = p.returncode
-        except subprocess.TimeoutExpired as e:
-            out = (e.stdout or "") + "\n" + (e.stderr or "") if isinstance(e.stdout, str) else "timeout"
-            rc = -9
-        wall = time.time() - t0
-        with open(os.path.join(work, "kani_%s.log" % (feat or "default")), "w") as f:
-            f.write(" ".join(cmd) + "\n" + out)
-        compile_failed = "error: could not compile" in out or "Failed to execute cargo" in out
-        for u in us:
-            r = dict(unit=u["unit"], harness=u["harness"], bound=u["bound"], complete=u.get("complete", False), wall_s=round(wall, 1),
-                     cmd=" ".join(cmd))
-            blk = _block(out, u["harness"])
-            if compile_failed:
-                r.update(status="undecided", why="the crate does not compile under cfg(kani): " + _first_error(out))
-            elif blk is None:
-                r.update(status="undecided", why="no result for this harness (rc=%s)" % rc)
-            else:
-                m = re.search(r"Verification Time: ([0-9.]+)s", blk)
-                if m:
-                    r["wall_s"] = float(m.group(1))
-                m = re.search(r"\*\* (\d+) of (\d+) failed", blk)
-                if m:
-                    r["checks"] = int(m.group(2))
-                cov = re.search(r"\*\* (\d+) of (\d+) cover properties satisfied", blk)
-                if "VERIFICATION:- SUCCESSFUL" in blk:
-                    if cov and int(cov.group(1)) < int(cov.group(2)):
-                        r.update(status="undecided", why="vacuity: a cover! property is unsatisfiable")
-                    else:
-                        r.update(status="pass")
-                elif "VERIFICATION:- FAILED" in blk:
-                    if re.search(r"timed out|CBMC timed out|out of memory|Killed|unwinding assertion", blk, re.I) and not re.search(r"Failed Checks: (?!.*unwinding)", blk):
-                        r.update(status="undecided", why="timeout / memory / unwinding bound: " + blk[-300:])
-                    else:
-                        fc = re.findall(r"Failed Checks: (.*)", blk)
-                        r.update(status="fail", failed_check=_slug(fc[0]) if fc else "assertion", output_tail=blk[-3000:])
-                else:
-                    r.update(status="undecided", why="harness did not finish: " + blk[-300:])
-            results.append(r)
-        # concrete playback for failing harnesses (second pass, one by one)
-        for r in results:
-            if r.get("status") == "fail" and "playback" not in r and r["harness"] in [u["harness"] for u in us]:
-                pcmd = ["cargo", "kani", "--target-dir", target, "--output-format=terse", "-Z", "concrete-playback",
-                        "--concrete-playback=print", "--harness", r["harness"]]
-                if feat:
-                    pcmd += ["--features", feat]
-                try:
-                    pp = subprocess.run(pcmd, cwd=repo, capture_output=True, text=True, env=env, preexec_fn=_limits, timeout=timeout_s + 300)
-                    m = re.search(r"```\s*\n(.*?)```", pp.stdout, re.S)
-                    if m:
-                        r["playback"] = m.group(1)
-                        vals = re.findall(r"//\s*(-?\d+(?:[a-z0-9]*)?)\s*\n\s*vec!\[([^\]]*)\]", m.group(1))
-                        r["concrete_input"] = [{"value": a, "bytes": b.strip()} for a, b in vals]
-                except subprocess.TimeoutExpired:
-                    pass
-    return results
+            return _run_one(repo, u, "%s-%d" % (base, i), work, timeout_s)
+        finally:
+            q.put(i)
+
+    # group by feature set so that a worker's target dir is not rebuilt back and forth more than necessary
+    units = sorted(units, key=lambda u: u.get("features", ""))
+    with ThreadPoolExecutor(max_workers=jobs) as ex:
+        return list(ex.map(job, units))
 
 
 def _block(out, harness):
@@ -175,4 +191,6 @@ if __name__ == "__main__":
     us = [u for u in UNITS if not sel or any(s in u["harness"] for s in sel)]
     res = run_units("/repo", us, os.path.join(VERIF, "out", "kani-dev"), "thorough")
     for r in res:
-        print("%-45s %-9s %6.1fs checks=%s %s" % (r["harness"], r["status"], r["wall_s"], r.get("checks"), r.get("why", r.get("failed_check", ""))[:200]))
+        print("%-45s %-9s wall=%6.1fs solver=%s checks=%s %s" % (r["harness"], r["status"], r["wall_s"], r.get("solver_s"), r.get("checks"), r.get("why", r.get("failed_check", ""))[:200]))
+        if r.get("concrete_input"):
+            print("    concrete input:", r["concrete_input"])
